@@ -22,6 +22,9 @@ import (
 // strconv.FormatFloat(f,'f',-1,bits) digits (a parameter of the model), stringified map keys.
 
 type features struct {
+	offsetSeconds                    bool // a time whose zone offset is not a whole number of minutes
+	utcNamed                         bool // a time in a zone named "UTC" whose offset is not zero
+	keyFails                         bool // a map key toString has no case for
 	nonFinite, nonFiniteInf          bool
 	stringOpt                        bool // a serialised field whose tag has the `string` option
 	nilBytes                         bool // a nil []byte
@@ -71,61 +74,38 @@ func init() {
 	kindNames[reflect.UnsafePointer] = "UnsafePointer"
 }
 
-// jsDateBody is the argument of `new Date("…")` for t: ECMA-262 date-time string format,
-// expanded years outside 0..9999, milliseconds, "Z" for the UTC zone, else ±hh:mm.
-func jsDateBody(t time.Time) string {
-	y := t.Year()
-	var b strings.Builder
-	if y < 0 || y > 9999 {
-		if y < 0 {
-			fmt.Fprintf(&b, "-%06d", -y)
-		} else {
-			fmt.Fprintf(&b, "+%06d", y)
-		}
-	} else {
-		fmt.Fprintf(&b, "%04d", y)
-	}
-	fmt.Fprintf(&b, "-%02d-%02dT%02d:%02d:%02d.%03d", int(t.Month()), t.Day(), t.Hour(), t.Minute(), t.Second(), t.Nanosecond()/1000000)
-	name, off := t.Zone()
-	if name == "UTC" {
-		b.WriteString("Z")
-		return b.String()
-	}
-	sign := '+'
-	if off < 0 {
-		sign = '-'
-		off = -off
-	}
-	fmt.Fprintf(&b, "%c%02d:%02d", sign, off/3600, off/60%60)
-	return b.String()
-}
-
-// keyString: fmt.Stringer, then native.EnvStringer, else the basic kinds spelled as Scriggo's
-// toString documents (decimal integers, 'f' -1 floats, true/false).
-func (d *describer) keyString(k reflect.Value) string {
+// key describes a map key (GoKey of the model) and returns the text the harness expects it to
+// be spelled as (to detect keys that collide): fmt.Stringer, then native.EnvStringer, else by kind.
+func (d *describer) key(k reflect.Value) (desc string, text string) {
+	kn := kindNames[k.Kind()]
 	switch x := k.Interface().(type) {
 	case fmt.Stringer:
 		d.f.keyNotStd = true
-		return x.String()
+		return "ks " + hexs(x.String()), x.String()
 	case native.EnvStringer:
 		d.f.keyNotStd = true
-		return x.String(nil)
+		return "ke " + hexs(x.String(nil)), x.String(nil)
 	}
 	switch k.Kind() {
 	case reflect.String:
-		return k.String()
+		return "kstr " + hexs(k.String()), k.String()
 	case reflect.Int, reflect.Int8, reflect.Int16, reflect.Int32, reflect.Int64:
-		return strconv.FormatInt(k.Int(), 10)
-	case reflect.Uint, reflect.Uint8, reflect.Uint16, reflect.Uint32, reflect.Uint64:
-		return strconv.FormatUint(k.Uint(), 10)
+		s := strconv.FormatInt(k.Int(), 10)
+		return "ki " + kn + " " + s, s
+	case reflect.Uint, reflect.Uint8, reflect.Uint16, reflect.Uint32, reflect.Uint64, reflect.Uintptr:
+		s := strconv.FormatUint(k.Uint(), 10)
+		return "ku " + kn + " " + s, s
 	case reflect.Bool:
 		d.f.keyNotStd = true
-		return strconv.FormatBool(k.Bool())
+		return "kb " + bit(k.Bool()), strconv.FormatBool(k.Bool())
 	case reflect.Float32, reflect.Float64:
 		d.f.keyNotStd = true
-		return strconv.FormatFloat(k.Float(), 'f', -1, k.Type().Bits())
+		s := strconv.FormatFloat(k.Float(), 'f', -1, k.Type().Bits())
+		return "kf " + kn + " " + hexs(s), s
 	}
-	panic("keyString: " + k.Type().String())
+	d.f.keyNotStd = true
+	d.f.keyFails = true
+	return "ko " + kn, k.Type().String()
 }
 
 // value describes a dynamic value (the content of an interface).
@@ -181,7 +161,15 @@ func (d *describer) value(x any) string {
 		if t.Year() < 0 || t.Year() > 9999 {
 			d.f.yearRange = true
 		}
-		return pre + "time " + hexs(jsDateBody(t)) + " " + hexs(t.Format(time.RFC3339))
+		name, off := t.Zone()
+		if off%60 != 0 {
+			d.f.offsetSeconds = true
+		}
+		if name == "UTC" && off != 0 {
+			d.f.utcNamed = true
+		}
+		return pre + fmt.Sprintf("time %d %d %d %d %d %d %d %s %d", t.Year(), int(t.Month()), t.Day(), t.Hour(), t.Minute(),
+			t.Second(), t.Nanosecond(), bit(name == "UTC"), off)
 	}
 	if e, ok := x.(error); ok {
 		d.f.errorValue = true
@@ -238,8 +226,15 @@ func (d *describer) kinded(rv reflect.Value) string {
 			}
 			return "bytes " + bit(rv.IsNil()) + " " + proto.Hex(rv.Bytes())
 		}
-		if t.Elem().Kind() == reflect.Uint8 && !rv.IsNil() {
-			d.f.namedBytes = true
+		if t.Elem().Kind() == reflect.Uint8 && t.Elem().NumMethod() == 0 {
+			if !rv.IsNil() {
+				d.f.namedBytes = true
+			}
+			b := make([]byte, rv.Len())
+			for i := range b {
+				b[i] = byte(rv.Index(i).Uint())
+			}
+			return "nbytes " + bit(rv.IsNil()) + " " + proto.Hex(b)
 		}
 		var b strings.Builder
 		fmt.Fprintf(&b, "slice %s %d", bit(rv.IsNil()), rv.Len())
@@ -265,12 +260,12 @@ func (d *describer) kinded(rv reflect.Value) string {
 		seen := map[string]bool{}
 		it := rv.MapRange()
 		for it.Next() {
-			ks := d.keyString(it.Key())
+			kd, ks := d.key(it.Key())
 			if seen[ks] {
 				d.f.dupKeys = true
 			}
 			seen[ks] = true
-			b.WriteString(" " + hexs(ks) + " " + d.position(it.Value()))
+			b.WriteString(" " + kd + " " + d.position(it.Value()))
 		}
 		return b.String()
 	case reflect.Struct:
@@ -313,11 +308,8 @@ func (d *describer) kinded(rv reflect.Value) string {
 				}
 				names[name] = true
 			}
-			val := "nil"
-			if exported {
-				val = d.position(rv.Field(i))
-			}
-			b.WriteString(" " + hexs(f.Name) + " " + hexs(tag) + " " + bit(exported) + " " + val)
+			val := d.position(rv.Field(i)) // unexported ones too: encoding/json's omitzero and promotion look at them
+			b.WriteString(" " + hexs(f.Name) + " " + hexs(tag) + " " + bit(exported) + " " + bit(f.Anonymous) + " " + val)
 		}
 		return b.String()
 	case reflect.Pointer:
